@@ -3,7 +3,9 @@ package main
 import (
 	"encoding/json"
 	"fmt"
+	"sort"
 	"strings"
+	"sync"
 	"time"
 	_ "time/tzdata"
 
@@ -216,13 +218,19 @@ func c15MatchChild(n *recipient.Node, w c15Child, path string) []string {
 	if w.text != nil && n.Text != *w.text {
 		bad = append(bad, fmt.Sprintf("%s/%s text %q != %q", path, w.local, n.Text, *w.text))
 	}
-	if len(n.Attrs) != len(w.attrs) {
-		bad = append(bad, fmt.Sprintf("%s/%s has %d attributes, %d expected", path, w.local, len(n.Attrs), len(w.attrs)))
-	}
+	// attributes the statement speaks of must be there exactly once with the exact value; others
+	// are judged by the skeleton comparison (they may not depend on a value)
 	for k, v := range w.attrs {
 		got, cnt := n.Attr(k)
 		if cnt != 1 || got != v {
 			bad = append(bad, fmt.Sprintf("%s/%s@%s = %q (x%d) != %q", path, w.local, k, got, cnt, v))
+		}
+	}
+	if w.local == "NameIDPolicy" {
+		if _, want := w.attrs["Format"]; !want {
+			if got, cnt := n.Attr("Format"); cnt > 0 && got != "" {
+				bad = append(bad, fmt.Sprintf("%s/NameIDPolicy@Format = %q although no NameID format is configured", path, got))
+			}
 		}
 	}
 	if len(n.Children) != len(w.kids) {
@@ -235,7 +243,74 @@ func c15MatchChild(n *recipient.Node, w c15Child, path string) []string {
 	return bad
 }
 
-// c15Judge parses the output with encoding/xml and compares it with the expectation.
+// c15Rank is the position of each child element in the schema's sequence for the message kind.
+var c15Rank = map[string]map[string]int{
+	"AuthnRequest":   {idp.NSA + " Issuer": 0, idp.NSDS + " Signature": 1, idp.NSP + " Extensions": 2, idp.NSA + " Subject": 3, idp.NSP + " NameIDPolicy": 4, idp.NSA + " Conditions": 5, idp.NSP + " RequestedAuthnContext": 6, idp.NSP + " Scoping": 7},
+	"LogoutRequest":  {idp.NSA + " Issuer": 0, idp.NSDS + " Signature": 1, idp.NSP + " Extensions": 2, idp.NSA + " BaseID": 3, idp.NSA + " NameID": 3, idp.NSA + " EncryptedID": 3, idp.NSP + " SessionIndex": 4},
+	"LogoutResponse": {idp.NSA + " Issuer": 0, idp.NSDS + " Signature": 1, idp.NSP + " Extensions": 2, idp.NSP + " Status": 3},
+}
+
+// c15Skeleton is the structure of a document with every value removed: element names, the
+// sorted names of their attributes, nesting and order (a Signature is one opaque node).
+func c15Skeleton(n *recipient.Node) string {
+	var b strings.Builder
+	var rec func(n *recipient.Node)
+	rec = func(n *recipient.Node) {
+		b.WriteString("<{" + n.NS + "}" + n.Local)
+		names := []string{}
+		for _, a := range n.Attrs {
+			names = append(names, "{"+a.NS+"}"+a.Local)
+		}
+		sort.Strings(names)
+		b.WriteString(" " + strings.Join(names, " ") + ">")
+		if !(n.NS == idp.NSDS && n.Local == "Signature") {
+			for _, k := range n.Children {
+				rec(k)
+			}
+		}
+		if strings.TrimSpace(n.Text) != "" {
+			b.WriteString("#text")
+		}
+		b.WriteString("</>")
+	}
+	rec(n)
+	return b.String()
+}
+
+var c15Baselines sync.Map
+
+// c15BaselineSkeleton is the skeleton of the output for the same configuration with every
+// non-empty string input replaced by its plain default.
+func c15BaselineSkeleton(c c15Case) (string, error) {
+	b := c
+	b.Str = make([]int, len(c.Str))
+	for i := range c.Str {
+		if c.str(i) == "" {
+			b.Str[i] = c.Str[i]
+		}
+	}
+	b.Clock = 0
+	key := fmt.Sprintf("%+v", b)
+	if v, ok := c15Baselines.Load(key); ok {
+		return v.(string), nil
+	}
+	out, p, err := c15Build(b)
+	if p != "" || err != nil {
+		return "", fmt.Errorf("baseline build: err=%v panic=%q", err, p)
+	}
+	root, err := recipient.Parse([]byte(out))
+	if err != nil {
+		return "", fmt.Errorf("baseline output not well-formed: %v", err)
+	}
+	sk := c15Skeleton(root)
+	c15Baselines.Store(key, sk)
+	return sk, nil
+}
+
+// c15Judge parses the output with encoding/xml and compares it with the expectation: the
+// attributes and children the statement speaks of, exactly; schema order of all children; and
+// the same skeleton as for plain values (no value may alter the structure). Attributes and
+// elements beyond those, identical for every value, are not the property's business.
 func c15Judge(c c15Case, out string) (bad []string) {
 	root, err := recipient.Parse([]byte(out))
 	if err != nil {
@@ -249,24 +324,33 @@ func c15Judge(c c15Case, out string) (bad []string) {
 	if cnt != 1 || id == "" {
 		bad = append(bad, "ID attribute missing")
 	}
-	if len(root.Attrs) != len(w.attrs)+1 {
-		names := []string{}
-		for _, a := range root.Attrs {
-			names = append(names, a.Local)
-		}
-		bad = append(bad, fmt.Sprintf("root has attributes %v; expected exactly ID + %d configured", names, len(w.attrs)))
-	}
 	for k, v := range w.attrs {
 		got, cnt := root.Attr(k)
 		if cnt != 1 || got != v {
 			bad = append(bad, fmt.Sprintf("root@%s = %q (x%d) != %q", k, got, cnt, v))
 		}
 	}
+	for _, flag := range []string{"ForceAuthn", "IsPassive"} {
+		if _, want := w.attrs[flag]; !want {
+			if got, cnt := root.Attr(flag); cnt > 0 && got != "false" && got != "0" {
+				bad = append(bad, fmt.Sprintf("root@%s = %q although the flag is off", flag, got))
+			}
+		}
+	}
 	// children: Issuer, [Signature], then the rest in schema order
 	kids := root.Children
 	var rest []*recipient.Node
 	sigAt := -1
+	lastRank := -1
 	for i, k := range kids {
+		rank, known := c15Rank[c.Kind][k.NS+" "+k.Local]
+		if !known {
+			bad = append(bad, fmt.Sprintf("child {%s}%s is not in the schema's sequence for %s (schema order)", k.NS, k.Local, c.Kind))
+		} else if rank < lastRank {
+			bad = append(bad, fmt.Sprintf("child %s comes after a later element of the schema's sequence (schema order)", k.Local))
+		} else {
+			lastRank = rank
+		}
 		if k.NS == idp.NSDS && k.Local == "Signature" {
 			if sigAt >= 0 {
 				bad = append(bad, "more than one Signature")
@@ -283,15 +367,38 @@ func c15Judge(c c15Case, out string) (bad []string) {
 	} else if sigAt >= 0 {
 		bad = append(bad, "unexpected Signature in an unsigned document")
 	}
-	if len(rest) != len(w.children) {
+	// the expected children, in order, among the rest (elements the statement does not speak
+	// of may sit between them where the schema allows)
+	j := 0
+	for _, k := range rest {
+		if j < len(w.children) && k.NS == w.children[j].ns && k.Local == w.children[j].local {
+			bad = append(bad, c15MatchChild(k, w.children[j], c.Kind)...)
+			j++
+			continue
+		}
+		for _, wc := range w.children {
+			if k.NS == wc.ns && k.Local == wc.local {
+				bad = append(bad, fmt.Sprintf("children: a second or misplaced %s (schema order)", k.Local))
+			}
+		}
+		if c.RAC == 0 && k.Local == "RequestedAuthnContext" {
+			bad = append(bad, "children: RequestedAuthnContext although none is configured")
+		}
+	}
+	if j != len(w.children) {
 		names := []string{}
 		for _, k := range rest {
 			names = append(names, k.Local)
 		}
-		bad = append(bad, fmt.Sprintf("children %v; expected %d", names, len(w.children)))
-	} else {
-		for i := range rest {
-			bad = append(bad, c15MatchChild(rest[i], w.children[i], c.Kind)...)
+		bad = append(bad, fmt.Sprintf("children %v; %s missing", names, w.children[j].local))
+	}
+	if len(bad) == 0 {
+		base, berr := c15BaselineSkeleton(c)
+		if berr != nil {
+			return []string{"structure: " + berr.Error()}
+		}
+		if sk := c15Skeleton(root); sk != base {
+			bad = append(bad, fmt.Sprintf("structure differs from the same configuration with plain values (a value altered the document structure): %s vs %s", sk, base))
 		}
 	}
 	return bad
@@ -326,7 +433,9 @@ func c15Exec(c c15Case) (keys []string, detail, class string) {
 		switch {
 		case strings.HasPrefix(bad[0], "not well-formed"):
 			what = "not-well-formed"
-		case strings.Contains(bad[0], "has attributes") || strings.Contains(bad[0], " attributes, "):
+		case strings.HasPrefix(bad[0], "structure"):
+			what = "structure-altered-by-value"
+		case strings.Contains(bad[0], "although"):
 			what = "attribute-set-differs"
 		case strings.Contains(bad[0], "schema order") || strings.Contains(bad[0], "Signature is child"):
 			what = "schema-order"
